@@ -175,3 +175,212 @@ Example C14_needless_nonvacuous :
   servos_at_top [NOtherDecl; NServo 1; NServo 2; NPlain; NIf [[NPlain]]].
 Proof. exact needless_nonvacuous. Qed.
 Print Assumptions C14_needless_nonvacuous.
+
+(* ==================================================================================================
+   Growth round: the TEXT of the object definitions (constructor arguments, initialisation calls) and
+   the display object every LCD command addresses.  Model: Tool/LibObjs.v   proofs: Proofs/LibObjsP.v *)
+From Coq Require Import QArith.
+From RV Require Import Base.Wire Tool.LibObjs Proofs.LibObjsP.
+Open Scope Z_scope.
+
+(* distinct (binding index, variable name) pairs are distinct C++ identifiers, for arbitrary names *)
+Theorem C14_lcd_identifier_injective : forall (k : Z) (n : text) (k' : Z) (n' : text),
+  0 <= k -> 0 <= k' -> lcd_ident k n = lcd_ident k' n' -> k = k' /\ n = n'.
+Proof. exact lcd_ident_inj. Qed.
+Print Assumptions C14_lcd_identifier_injective.
+
+(* (a) every display declaration before the main loop defines an object whose binding index is the
+   number of earlier declarations of its name, every object comes from such a declaration, and no two
+   objects share an identifier: each instantiated display is defined exactly once *)
+Theorem C14_object_of_its_declaration : forall (p : dprog) (pre : list item) (d : lcdd) (post : list item),
+  d_setup p = pre ++ ILcd d :: post ->
+  In (d, count_t (l_name d) (top_lcd_names pre)) (lcd_defs p).
+Proof. exact lcd_defs_at. Qed.
+Print Assumptions C14_object_of_its_declaration.
+
+Theorem C14_every_object_has_a_declaration : forall (p : dprog) (dk : lcdd * Z),
+  In dk (lcd_defs p) ->
+  exists pre post, d_setup p = pre ++ ILcd (fst dk) :: post /\
+                   snd dk = count_t (l_name (fst dk)) (top_lcd_names pre).
+Proof. exact every_object_has_a_declaration. Qed.
+Print Assumptions C14_every_object_has_a_declaration.
+
+Theorem C14_objects_defined_once : forall p : dprog,
+  NoDup (map def_ident (lcd_defs p)) /\ NoDup (lib_globals p).
+Proof. exact (fun p => conj (lcd_defs_idents_nodup [] (d_setup p)) (lib_globals_NoDup p)). Qed.
+Print Assumptions C14_objects_defined_once.
+
+(* the library-object lines of the global section are exactly: "Servo __servo_<n>;" for the scanned
+   servo declarations and, for every display object, the lines built from the constructor arguments
+   of ITS declaration (no line mixes the fields of two declarations) *)
+Theorem C14_global_lines_exact : forall (p : dprog) (ln : text),
+  In ln (lib_globals p) <->
+  (exists d, In d (servo_decls p) /\ ln = servo_obj_line (s_name d)) \/
+  (exists dk, In dk (lcd_defs p) /\ In ln (lcd_global_lines (fst dk) (snd dk))).
+Proof. exact lib_globals_In. Qed.
+Print Assumptions C14_global_lines_exact.
+
+(* the definition line: class of the interface, identifier of the binding, the constructor arguments
+   of the declaration in the order of the library's constructor *)
+Theorem C14_object_line_shape : forall (d : lcdd) (k : Z),
+  lcd_obj_line d k =
+  class_text (class_of d) ++ [32] ++ lcd_ident k (l_name d) ++ [40] ++ commas (lcd_ctor_args d) ++ [41; 59].
+Proof. exact lcd_obj_line_shape. Qed.
+Print Assumptions C14_object_line_shape.
+
+(* setup() initialises every display with a block of lines naming ITS object, ITS cols/rows
+   variables and ITS backlight pin (begin / init+backlight, pinMode+analogWrite, clear) *)
+Theorem C14_lcd_initialised_as_declared : forall (p : dprog) (pre : list item) (d : lcdd) (post : list item),
+  d_setup p = pre ++ ILcd d :: post ->
+  exists a b, lib_init p = a ++ lcd_init_lines d (count_t (l_name d) (top_lcd_names pre)) ++ b.
+Proof. exact lcd_init_block. Qed.
+Print Assumptions C14_lcd_initialised_as_declared.
+
+(* the first declaration of a servo name is attached with ITS pin and pulse bounds (before the main
+   loop, or at the top of its body) *)
+Theorem C14_servo_attached_as_declared : forall (p : dprog) (pre post : list item) (d : servod),
+  (d_setup p = pre ++ IServo d :: post /\ ~ In (s_name d) (map s_name (top_servos pre))) \/
+  (d_loop p = pre ++ IServo d :: post /\ ~ In (s_name d) (map s_name (top_servos (d_setup p))) /\
+   ~ In (s_name d) (map s_name (top_servos pre))) ->
+  exists a b, lib_init p = a ++ servo_init_lines d ++ b.
+Proof. exact servo_attached_as_declared. Qed.
+Print Assumptions C14_servo_attached_as_declared.
+
+(* remark, not a finding (the statement of C14 is about libraries): a servo variable bound twice shares
+   one object and is attached once, with the pin of its FIRST declaration - the hypothesis "first
+   declaration of the name" above cannot be dropped (reproduced by the correspondence on the scripts
+   of kind in:servo-rebind) *)
+Theorem C14_servo_rebind_first_wins_remark :
+  exists p d1 d2,
+    d_setup p = [IServo d1; IServo d2] /\ s_name d1 = s_name d2 /\ s_pin d1 <> s_pin d2 /\
+    lib_init p = servo_init_lines d1 /\ lib_globals p = [servo_obj_line (s_name d1)].
+Proof. exact servo_rebind_first_wins. Qed.
+Print Assumptions C14_servo_rebind_first_wins_remark.
+
+(* composition with the include lines and the library lists above: the header(s) providing the class
+   of every defined object are included, its library is included and requested, and no library header
+   is included without an object of its class *)
+Theorem C14_class_header_included : forall (p : dprog) (dk : lcdd * Z),
+  In dk (lcd_defs p) ->
+  incl (headers_of (class_of (fst dk))) (headers (erase_prog p)) /\
+  In (class_of (fst dk)) (includes (erase_prog p)) /\ In (class_of (fst dk)) (required (erase_prog p)).
+Proof. exact (fun p dk H => conj (class_header_included p dk H) (defined_class_requested p dk H)). Qed.
+Print Assumptions C14_class_header_included.
+
+Theorem C14_servo_header_included : forall (p : dprog) (d : servod),
+  In d (servo_decls p) ->
+  In HServo (headers (erase_prog p)) /\
+  In LServo (includes (erase_prog p)) /\ In LServo (required (erase_prog p)).
+Proof. exact (fun p d H => conj (servo_header_included p d H) (servo_class_requested p d H)). Qed.
+Print Assumptions C14_servo_header_included.
+
+Theorem C14_header_has_object : forall (p : dprog) (h : header),
+  In h (headers (erase_prog p)) ->
+  match h with
+  | HServo => exists d, In d (servo_decls p)
+  | HLiquidCrystal => exists dk, In dk (lcd_defs p) /\ l_i2c (fst dk) = false
+  | HWire | HLiquidCrystalI2C => exists dk, In dk (lcd_defs p) /\ l_i2c (fst dk) = true
+  end.
+Proof. exact header_has_object. Qed.
+Print Assumptions C14_header_has_object.
+
+(* the sections in textual order: the #include line(s) of the class, then the definition of the object
+   with the arguments of its declaration, then "void setup() {", then its initialisation block *)
+Theorem C14_object_defined_before_setup : forall (p : dprog) (pre : list item) (d : lcdd) (post : list item),
+  d_setup p = pre ++ ILcd d :: post ->
+  let k := count_t (l_name d) (top_lcd_names pre) in
+  exists a b c e,
+    lib_sketch p = a ++ [lcd_obj_line d k] ++ b ++ [setup_start] ++ c ++ lcd_init_lines d k ++ e /\
+    (forall h, In h (headers_of (class_of d)) -> In (include_line h) a).
+Proof. exact object_defined_before_setup. Qed.
+Print Assumptions C14_object_defined_before_setup.
+
+Theorem C14_servo_defined_before_setup : forall (p : dprog) (d : servod),
+  In d (servo_decls p) ->
+  exists a b c,
+    lib_sketch p = a ++ [servo_obj_line (s_name d)] ++ b ++ [setup_start] ++ c /\
+    In (include_line HServo) a.
+Proof. exact servo_defined_before_setup. Qed.
+Print Assumptions C14_servo_defined_before_setup.
+
+(* (b) inside the quantifier - displays declared at the top level before the main loop; no command
+   before the first declaration of its variable (the parser drops such a line) - every emitted LCD
+   command, at any nesting depth of setup(), in loop() and in every function body, addresses the
+   display object of the latest declaration of its variable that precedes it *)
+Theorem C14_resolution_is_latest_binding : forall p : dprog,
+  lcds_at_top p = true -> cmds_follow_decl [] (d_setup p) = true ->
+  let names := rev (top_lcd_names (d_setup p)) in
+  resolve p = (spec_items [] (d_setup p),
+               flat_map (spec_item names) (d_loop p),
+               map (fun f => flat_map (spec_item names) f) (d_functions p)).
+Proof. exact resolve_spec. Qed.
+Print Assumptions C14_resolution_is_latest_binding.
+
+(* the reference semantics in the words of the task: a command after the c-th binding of n (c > 0)
+   addresses the object of that binding (index c - 1), for every sequence around it *)
+Theorem C14_command_after_kth_binding : forall (seen : list text) (pre : list item) (n : text) (post : list item),
+  let c := count_t n (top_lcd_names pre) + count_t n seen in
+  0 < c ->
+  spec_items seen (pre ++ ICmd n :: post) =
+  spec_items seen pre ++ recv (c - 1) n :: spec_items (rev (top_lcd_names pre) ++ seen) post.
+Proof. exact spec_command_after_kth_binding. Qed.
+Print Assumptions C14_command_after_kth_binding.
+
+(* and that object is the one the declaration defined, with its constructor arguments *)
+Theorem C14_command_addresses_its_declaration : forall (p : dprog) (pre : list item) (d : lcdd) (mid post : list item),
+  d_setup p = pre ++ ILcd d :: mid ++ ICmd (l_name d) :: post ->
+  count_t (l_name d) (top_lcd_names mid) = 0 ->
+  let k := count_t (l_name d) (top_lcd_names pre) in
+  In (d, k) (lcd_defs p) /\
+  In (lcd_obj_line d k) (lib_globals p) /\
+  spec_items [] (d_setup p) =
+    spec_items [] (pre ++ ILcd d :: mid) ++
+    (lcd_ident k (l_name d), lcd_cols_var k (l_name d)) ::
+    spec_items (rev (top_lcd_names (pre ++ ILcd d :: mid))) post.
+Proof. exact command_addresses_its_declaration. Qed.
+Print Assumptions C14_command_addresses_its_declaration.
+
+(* non-vacuity: a program inside both guards with a re-bound display (parallel with backlight, then
+   I2C), commands at the top level, in an if body, in the loop and in a function, and a servo with a
+   float pulse bound; two objects, three receivers in setup() *)
+Example C14_objects_nonvacuous :
+  lcds_at_top ex_prog = true /\ cmds_follow_decl [] (d_setup ex_prog) = true /\
+  map snd (lcd_defs ex_prog) = [0; 1] /\
+  resolve ex_prog =
+    ([recv 0 [108]; recv 0 [108]; recv 1 [108]], [recv 1 [108]], [[recv 1 [108]]]) /\
+  headers (erase_prog ex_prog) = [HServo; HLiquidCrystal; HWire; HLiquidCrystalI2C] /\
+  length (lib_globals ex_prog) = 9%nat /\ length (lib_init ex_prog) = 9%nat /\
+  nearest (1201 # 2)%Q = 601.
+Proof. exact ex_prog_facts. Qed.
+Print Assumptions C14_objects_nonvacuous.
+
+(* (c) the class -> header and declaration -> library tables are not stated by hand: Gen/LibTable.v is
+   regenerated on every run from the stitch chain and the declaration helpers of emit() and from
+   _collect_required_libraries, and must equal the model's tables *)
+From RV Require Import Gen.LibTable Proofs.LibTableP.
+
+Theorem C14_tables_are_the_models :
+  gen_class_headers = model_class_headers /\
+  gen_interface_class = model_interface_class /\
+  gen_required = model_required /\
+  gen_collected_attr = interface_attr_text.
+Proof. exact tables_are_the_models. Qed.
+Print Assumptions C14_tables_are_the_models.
+
+Theorem C14_library_name_is_class_name : forall l : lib,
+  In (class_text l) (map snd gen_required) /\
+  In (class_text l, map header_text (headers_of l)) gen_class_headers /\
+  last (map header_text (headers_of l)) [] = class_text l ++ dot_h.
+Proof. exact library_name_is_class_name. Qed.
+Print Assumptions C14_library_name_is_class_name.
+
+Theorem C14_emitted_class_in_table : forall d : lcdd,
+  In ((if l_i2c d then iface_i2c_text else []), lcd_class d) gen_interface_class /\
+  In (lcd_class d, map header_text (headers_of (class_of d))) gen_class_headers /\
+  In (lcd_class d) (map snd gen_required).
+Proof. exact emitted_class_in_table. Qed.
+Print Assumptions C14_emitted_class_in_table.
+
+Theorem C14_table_classes_nodup : NoDup (map fst gen_class_headers) /\ NoDup (map snd gen_required).
+Proof. exact table_classes_nodup. Qed.
+Print Assumptions C14_table_classes_nodup.
